@@ -1183,7 +1183,7 @@ THEOREMS = {
     'C01': ['Source.get_valid_classes_is_model', 'Source.get_valid_classes_refuses', 'Source.get_multiplicity_is_model', 'Source.translator_complete', 'Source.get_meta_index_is_model', 'Source.file_idx_is_model', 'C01.convert_lookup_key', 'C01.convert_lookup_key_4d', 'C01.convert_lookup_key_3d',
             'C01.convert_canonical_key', 'C01.meta_follows_flipped_data', 'C01.fill_index_in_range',
             'C01.fill_index_injective', 'C01.convert_total', 'C01.convert_total_4d', 'C01.convert_total_3d', 'C01.convert_total_5d_t1', 'C01.convert_end_to_end'],
-    'C02': ['Source.file_idx_is_model', 'Source.file_idx_volume_is_model', 'Source.translator_complete', 'C02.fill_index_in_range', 'C02.fill_index_injective', 'C02.flipped_data_same_files',
+    'C02': ['Source.file_idx_is_model', 'Source.file_idx_volume_is_model', 'Source.get_data_trim_is_model', 'Source.translator_complete', 'C02.fill_index_in_range', 'C02.fill_index_injective', 'C02.flipped_data_same_files',
             'C02.canonical_order_unique', 'C02.reorient_transform_maps_back', 'C02.order_change_is_signed_perm',
             'C02.reorder_shape_perm', 'C02.axes_follow_permutation', 'C02.reordered_affine_orientation',
             'C02.stack_fill', 'C02.stack_data_trim', 'C02.stack_affine'],
